@@ -12,7 +12,10 @@ FLATTEN = [("flatten", 11, 14)]
 SHARE = [("share:1", 10, 13), ("share:2", 10, 12), ("share:3", 8, 10)]
 FROMITER = [("fromiter:0", 9, 12), ("fromiter:1", 10, 13), ("fromiter:2", 11, 14), ("fromiter:inf", 9, 12)]
 FOREACH = [("foreach", 9, 12)]
-ALL = RELAYS + TAKES + MERGE + CONCAT + COMBINE + FLATTEN + SHARE + FROMITER + FOREACH
+# pipelines of operators: `compose` (Ops/Compose.lean) against pipe!(puppets, stage, stage, …) on the real crate
+CHAINS = [("chain:map,add,1/take,2", 9, 12), ("chain:filter,mod,2,0/map,mul,3/take,1", 9, 11), ("chain:take,2/skip,1/scan,lin,2,0", 9, 11),
+          ("chain:merge,2/take,1", 9, 11), ("chain:concat,2/filter,mod,2,0", 9, 11), ("chain:skip,1/filter,mod,2,1/take,2", 9, 11)]
+ALL = RELAYS + TAKES + MERGE + CONCAT + COMBINE + FLATTEN + SHARE + FROMITER + FOREACH + CHAINS
 
 # beyond the properties' domain (concat / combine / flatten members that greet late): watched for panics only, under C17
 LATE = [("concatL:2", 9, 12), ("concatL:3", 8, 10), ("combineL:2", 8, 11), ("flattenL", 9, 12)]
